@@ -421,8 +421,18 @@ def r195(ctx, R):
     # 201 only after a successful create, 204 otherwise
     for q in ('placement.handlers.trait:put_trait',):
         f = prog.func(q)
+        # the variable stored into req.response.status
+        svar = None
+        for x in own_nodes(f.node):
+            if isinstance(x, ast.Assign) and any(
+                    isinstance(t, ast.Attribute) and t.attr == 'status'
+                    and isinstance(t.value, ast.Attribute)
+                    and t.value.attr == 'response' for t in x.targets) \
+                    and isinstance(x.value, ast.Name):
+                svar = x.value.id
         sets = [x for x in own_nodes(f.node) if isinstance(x, ast.Assign)
-                and any(isinstance(t, ast.Name) and t.id == 'status'
+                and svar is not None
+                and any(isinstance(t, ast.Name) and t.id == svar
                         for t in x.targets)]
         vals = sorted(x.value.value for x in sets
                       if isinstance(x.value, ast.Constant))
